@@ -31,28 +31,28 @@ Theorem C17_paused_by_hot_restart : forall s id, r_state s = st_hr ->
 Proof. exact paused_by_hot_restart. Qed.
 Print Assumptions C17_paused_by_hot_restart.
 
-(* ---- C17_not_twice.  The guard: with DIFFERENT epochs the watcher creates nothing and touches no pool *)
+(* ---- C17_not_twice (after the repair: the watcher compares the identity of the pool object,
+   `sm.pools[id] != pool`, not the epochs).  The guard: a watcher whose pool object was swapped out
+   creates nothing and touches no pool, whatever the epochs are. *)
 Theorem C17_not_twice_guard : forall s id ok,
   in_range s id = true -> w_pc (watcher_of s id) = WCompare ->
-  obj_epoch s (pool_of s id) <> obj_epoch s (w_pool (watcher_of s id)) ->
+  pool_of s id <> w_pool (watcher_of s id) ->
   let s' := r_step s (Compare id ok) in
   created s' = created s /\ objs s' = objs s /\ pools s' = pools s /\ bad s' = bad s /\ w_pc (watcher_of s' id) = WTop.
-Proof. exact guard_distinct. Qed.
+Proof. exact guard_swapped. Qed.
 Print Assumptions C17_not_twice_guard.
 
-(* full statement: no watcher ever stores a rebuilt session into a pool object that is no longer
-   sm.pools[id].  False: a hot restart that announces the epoch the sessions already have. *)
-Definition C17_not_twice_full : Prop := forall n evs, bad (r_run evs (r_init n)) = 0%nat.
-Theorem C17_not_twice_refuted : ~ C17_not_twice_full.
-Proof. exact not_twice_refuted. Qed.
-Print Assumptions C17_not_twice_refuted.
+(* for ALL histories (any epochs, equal ones included): no watcher ever stores a rebuilt session into a
+   pool object that is no longer sm.pools[id].  (Before the repair this was refuted by HotRestart(0)
+   on epoch-0 sessions; that history is the regression scenario "hotrestart_epoch0" of the harness.) *)
+Theorem C17_not_twice_full : forall n evs, bad (r_run evs (r_init n)) = 0%nat.
+Proof. exact not_twice_full. Qed.
+Print Assumptions C17_not_twice_full.
 
-(* holds for every history in which each swap announces an epoch different from the epoch of the
-   session the pool's watcher is holding *)
-Theorem C17_not_twice_partial_distinct_epochs : forall n evs, run_fresh evs (r_init n) ->
-  bad (r_run evs (r_init n)) = 0%nat.
-Proof. exact not_twice_partial. Qed.
-Print Assumptions C17_not_twice_partial_distinct_epochs.
+Theorem C17_rebuild_into_current : forall s id ok,
+  created (r_step s (Compare id ok)) = S (created s) -> w_pool (watcher_of s id) = pool_of s id.
+Proof. exact rebuild_into_current. Qed.
+Print Assumptions C17_rebuild_into_current.
 
 (* ---- C17_fail_fast: GetStream never blocks; it fails exactly when the pool's current session is closed *)
 Theorem C17_fail_fast : forall s k,
@@ -75,6 +75,36 @@ Theorem C17_close_final : forall evs s, all_exited s -> all_exited (r_run evs s)
 Proof. exact close_final. Qed.
 Print Assumptions C17_close_final.
 
+(* the state Close leaves behind (every watcher returned, every pool's session closed, nothing parked —
+   since the repair of Close, which now closes the parked pools too) is final: over every further history
+   no session is created, neither by a watcher nor by the hot-restart handler (no pool object is added;
+   an event needs a live session of the manager to arrive on) *)
+Theorem C17_close_end_quiesces : forall s, r_enabled s CloseEnd = true -> Quiesced (r_step s CloseEnd).
+Proof. exact close_end_quiesces. Qed.
+Print Assumptions C17_close_end_quiesces.
+
+Theorem C17_close_quiesced_forever : forall evs s, Quiesced s ->
+  Quiesced (r_run evs s) /\ created (r_run evs s) = created s /\ length (objs (r_run evs s)) = length (objs s).
+Proof. exact close_quiesced_forever. Qed.
+Print Assumptions C17_close_quiesced_forever.
+
+(* after cancel and outside hotRestartState every watcher not just past its timer can return by its own
+   steps without creating anything ... *)
+Theorem C17_close_exit_path : forall s id, closed s = true -> r_state s <> st_hr -> in_range s id = true ->
+  w_pc (watcher_of s id) <> WCompare ->
+  let s' := r_run (exit_path id (w_pc (watcher_of s id))) s in
+  w_pc (watcher_of s' id) = WExit /\ created s' = created s /\ objs s' = objs s.
+Proof. exact close_exit_path. Qed.
+Print Assumptions C17_close_exit_path.
+
+(* ... whereas at its loop head in hotRestartState no sequence of its own steps moves it: Close waits for
+   the end of the hot restart (bounded by C16's checker; the bound itself is timer behaviour) *)
+Theorem C17_close_waits_for_hot_restart : forall evs s id,
+  forallb (own id) evs = true -> r_state s = st_hr -> w_pc (watcher_of s id) = WTop ->
+  r_run evs s = s.
+Proof. exact close_waits_for_hot_restart. Qed.
+Print Assumptions C17_close_waits_for_hot_restart.
+
 (* ---- non-vacuity *)
 (* two pools; pool 1 loses its session, two dials fail (server down), the third succeeds *)
 Example C17_example_heal :
@@ -85,11 +115,11 @@ Example C17_example_heal :
 Proof. vm_compute. repeat split. Qed.
 
 (* hot restart with a fresh epoch: the parked pool dies later, the watcher does not rebuild it;
-   the same with epoch 0 (equal epochs): it does, into the parked object *)
+   the same with epoch 0 (equal epochs): neither *)
 Example C17_example_not_twice :
   let h e := [WLoad 0; HREvent 0 e true; HRTick; SessionLost 0; WakeClose 0; TimerFires 0; Compare 0 true; WLoad 0] in
   created (r_run (h 7) (r_init 1)) = 0%nat /\ get_stream_r (r_run (h 7) (r_init 1)) 0 = GsOk /\
-  created (r_run (h 0) (r_init 1)) = 1%nat /\ bad (r_run (h 0) (r_init 1)) = 1%nat.
+  created (r_run (h 0) (r_init 1)) = 0%nat /\ get_stream_r (r_run (h 0) (r_init 1)) 0 = GsOk.
 Proof. vm_compute. repeat split. Qed.
 
 (* Close while a rebuild is pending: the watcher leaves without dialling *)
